@@ -317,6 +317,63 @@ def translate_rot_site(site):
                 f'def {name} {sig} : {typ} :=\n  {site["fallback"]}\ndef {name}_translated : Bool := false'), f'fallback: {e}'
 
 
+# ---- proximal maps of the functionals, per element, real case (C08) ------------------------------------------------------
+# `torch.sgn / relu / abs / clamp_max` are the order primitives of `Mrpro/Model/Functional.lean` (`sgnK`, `reluK`, `absK`, `minK`);
+# `self._divide_by_n(e, shape)` is `e / n` with `n` the divisor the method computes (1 when `divide_by_n` is off; the
+# bookkeeping of `n` is part of the model `funN`, compared with the code by the correspondence check); `.conj()` and `.to(dtype)`
+# are the identity on real values.
+PROX_SITES = [
+    dict(name='l1_prox', file='operators/functionals/L1Norm.py', func=('L1Norm', 'prox'),
+         inputs=['x', 'self_target', 'self_weight', 'sigma', 'n'], model='(fun x t w s n => M.l1ProxEl w s n t x)'),
+    dict(name='l1_prox_conj', file='operators/functionals/L1Norm.py', func=('L1Norm', 'prox_convex_conj'),
+         inputs=['x', 'sigma', 'self_target', 'self_weight', 'n'], model='(fun x s t w n => M.l1ConjProxEl w s n t x)'),
+    dict(name='l2_prox', file='operators/functionals/L2NormSquared.py', func=('L2NormSquared', 'prox'),
+         inputs=['self_weight', 'sigma', 'n', 'x', 'self_target'], model='(fun w s n x t => M.l2ProxEl w s n t x)'),
+    dict(name='l2_prox_conj', file='operators/functionals/L2NormSquared.py', func=('L2NormSquared', 'prox_convex_conj'),
+         inputs=['self_weight', 'n', 'x', 'sigma', 'self_target'], model='(fun w n x s t => M.l2ConjProxEl w s n t x)'),
+]
+for _s in PROX_SITES:
+    SITE_PROPS['prox_' + _s['name']] = 'C08'
+
+
+def _prox_hook(node, ctx, poisoned):
+    f = node.func
+    fx = lambda a: py2lean.fexpr(a, ctx, poisoned)  # noqa: E731
+    name = ast.unparse(f)
+    if name in ('torch.sgn', 'torch.relu', 'torch.abs') and len(node.args) == 1 and not node.keywords:
+        return f'({ {"torch.sgn": "sgnK", "torch.relu": "reluK", "torch.abs": "absK"}[name] } {fx(node.args[0])})'
+    if name == 'torch.clamp_max' and len(node.args) == 2 and not node.keywords:
+        return f'(minK {fx(node.args[0])} {fx(node.args[1])})'
+    if name == 'self._divide_by_n' and len(node.args) == 2 and not node.keywords:
+        return f'({fx(node.args[0])} / {ctx.use("n")})'
+    if isinstance(f, ast.Attribute) and f.attr == 'abs' and not node.args and not node.keywords:
+        return f'(absK {fx(f.value)})'
+    if isinstance(f, ast.Attribute) and f.attr == 'conj' and not node.args and not node.keywords:
+        return fx(f.value)
+    if isinstance(f, ast.Attribute) and f.attr == 'to' and len(node.args) == 1 and not node.keywords \
+            and ast.unparse(node.args[0]).startswith('torch.result_type('):
+        return fx(f.value)
+    return None
+
+
+def translate_prox_site(site):
+    name = 'prox_' + site['name']
+    py2lean.CALL_HOOKS.append(_prox_hook)
+    try:
+        tree = ast.parse((SRC / site['file']).read_text())
+        fn = _find(tree, *site['func'])
+        text = py2lean.float_function(fn, site['inputs'], name)
+        return f'/-- translated from `{site["file"]}:{fn.name} (line {fn.lineno})` -/\n{text}\ndef {name}_translated : Bool := true', 'translated'
+    except (py2lean.Untranslatable, OSError, SyntaxError) as e:
+        sig = ' '.join(f'({py2lean._lean_name(p)} : K)' for p in site['inputs'])
+        args = ' '.join(py2lean._lean_name(p) for p in site['inputs'])
+        text = (f'/-- FALLBACK (source outside the translatable fragment: {str(e)[:100]}): the hand-written model -/\n'
+                f'def {name} {sig} : K :=\n  {site["model"]} {args}\ndef {name}_translated : Bool := false')
+        return text, f'fallback: {e}'
+    finally:
+        py2lean.CALL_HOOKS.remove(_prox_hook)
+
+
 def _find(tree, cls, func):
     scope = tree
     if cls is not None:
@@ -361,7 +418,7 @@ def translate_site(site):
 
 def generate():
     out = ['import Mrpro.Model.Index', 'import Mrpro.Model.Ops', 'import Mrpro.Model.KDataOps',
-           'import Mrpro.Model.SrcModel', 'import Mrpro.Model.Signal', 'import Mrpro.Model.Load', 'import Mrpro.Model.Rotation', '',
+           'import Mrpro.Model.SrcModel', 'import Mrpro.Model.Signal', 'import Mrpro.Model.Load', 'import Mrpro.Model.Rotation', 'import Mrpro.Model.Functional', '',
            '/-! GENERATED by harness/translate_src.py from /repo/src on every check run. Do not edit. -/', '',
            'namespace M.Src', '']
     status = {}
@@ -384,7 +441,13 @@ def generate():
         text, st = translate_rot_site(site)
         out += [text, '']
         status[site['name']] = st
-    out += ['end Rot', '', 'end M.Src', '']
+    out += ['end Rot', '', '/-! proximal maps of the functionals, per element (real case) -/', 'section Prox',
+            'variable {K : Type} [LT K] [DecidableLT K] [Neg K] [OfNat K 0] [OfNat K 1] [OfNat K 2] [Add K] [Sub K] [Mul K] [Div K]', 'open M', '']
+    for site in PROX_SITES:
+        text, st = translate_prox_site(site)
+        out += [text, '']
+        status['prox_' + site['name']] = st
+    out += ['end Prox', '', 'end M.Src', '']
     return '\n'.join(out), status
 
 
